@@ -292,14 +292,14 @@ func readJ(dec *json.Decoder) (JVal, error) {
 }
 
 type PEntry struct {
-	Rule   H    `json:"rule"`
-	Level  *H   `json:"level"`  // "Level:" row (no colour support)
+	Rule   H     `json:"rule"`
+	Level  *H    `json:"level"`  // "Level:" row (no colour support)
 	Yellow *bool `json:"yellow"` // colour of the description (colour mode)
-	Desc   H    `json:"desc"`
-	Cat    H    `json:"cat"`
-	Loc    H    `json:"loc"`
-	Text   *H   `json:"text"`
-	Doc    H    `json:"doc"`
+	Desc   H     `json:"desc"`
+	Cat    H     `json:"cat"`
+	Loc    H     `json:"loc"`
+	Text   *H    `json:"text"`
+	Doc    H     `json:"doc"`
 }
 type PDoc struct {
 	Entries []PEntry `json:"entries"`
@@ -757,7 +757,9 @@ type key struct {
 	Level    string
 }
 
-func (k key) String() string { return fmt.Sprintf("%q:%d:%d %q %q", k.File, k.Row, k.Col, k.Title, k.Level) }
+func (k key) String() string {
+	return fmt.Sprintf("%q:%d:%d %q %q", k.File, k.Row, k.Col, k.Title, k.Level)
+}
 
 var locRe = regexp.MustCompile(`(?s)^(.*):([0-9]+):([0-9]+)$`)
 
@@ -1177,7 +1179,7 @@ func genViolation(rng *hutil.Rng, files []string, oddLevels bool) CViolation {
 	case k < 9 || !oddLevels:
 		v.Level = hx("warning")
 	default:
-		v.Level = hx(pick(rng, []string{"", "info", "Error", "warning "}))
+		v.Level = hx(pick(rng, []string{"", "info", "Error", "WARNING"}))
 	}
 	switch rng.Below(6) {
 	case 0:
